@@ -786,6 +786,11 @@ class History:
         self.next_uuid = 100
         self.uuid_pool = []
         self.failed_parts = set()
+        # set once the implementation has left the specification in a part
+        # of the snapshot that is another property's business: the history
+        # goes on for a while, this property's part is still compared
+        self.degraded = None
+        self.degraded_steps = 0
         self.loaded = False
         self.pending_seed = self.seed_ops() if rng.random() < 0.9 else []
 
@@ -1092,13 +1097,28 @@ class History:
             if ctx.prop in which or ctx.prop not in ("C03", "C04", "C10",
                                                      "C16"):
                 sig = {"kind": "graph-semantics", "op": op[0]}
+                extra = {}
+                if self.degraded is not None:
+                    extra["earlier_divergence"] = {
+                        "step": self.degraded[0], "parts": self.degraded[1]}
                 ctx.report(sig, dict(replay, expected=want, exception=exc,
                                      expected_exception=want_exc,
-                                     parts=sorted(which)),
+                                     parts=sorted(which), **extra),
                            "after %r the observable state differs from the "
                            "specification in %s (exception %s, expected %s)"
                            % (line, sorted(which), exc, want_exc))
-            return False
+                return False
+            # not this property's part of the snapshot: its consequences for
+            # this property (a later return value, exception or collection
+            # content) are still looked for over the next operations
+            if self.degraded is None:
+                self.degraded = (len(self.script), sorted(which))
+                ctx.count("degraded-history")
+            self.degraded_steps += 1
+            return self.degraded_steps <= 25
+        if self.degraded is not None:
+            self.degraded_steps += 1
+            return self.degraded_steps <= 25
         if op[0] in ("delslice", "setslice") and exc is None:
             # the model sees the composite as deletions (highest index
             # first) followed by insertions; only the final state is compared
